@@ -45,6 +45,11 @@ func pkgSum(c *rt.Ctx, xs ...int) int {
 	return n
 }
 
+// Shape and Sq are declared in a plain file, which the optimise stage does not see
+func pkgArea(c *rt.Ctx, s Shape) int { c.X(910, s.Area()); return s.Area() }
+
+func pkgSide(c *rt.Ctx, s Sq) int { c.X(911, s.V); return s.V }
+
 func pkgCount(c *rt.Ctx, xs ...any) int { c.X(908, len(xs)); return len(xs) }
 
 func pkgSub(c *rt.Ctx, a, b int) int { c.X(907, a*100+b); return a - b }
@@ -76,6 +81,16 @@ func more(c *rt.Ctx, n *int) func() bool {
 }
 `
 
+// a file which does not use the API: go-co neither rewrites it nor shows it to the optimise stage
+const etaPlain = `package src
+
+type Shape interface{ Area() int }
+
+type Sq struct{ V int }
+
+func (s Sq) Area() int { return s.V * s.V }
+`
+
 var etaCallees = []etaCallee{
 	{name: "pkgfunc", call: "pkgInc", sig: "(c *rt.Ctx, a int) int", args: "c, a", invoke: "c, 10"},
 	{name: "pkgfunc-permuted", call: "pkgSub", sig: "(c *rt.Ctx, a, b int) int", args: "c, b, a", invoke: "c, 10, 3"},
@@ -96,6 +111,8 @@ var etaCallees = []etaCallee{
 	{name: "variadic-collapse", call: "pkgCount", sig: "(c *rt.Ctx, xs ...any) int", args: "c, xs", invoke: "c, 1, 2, 3"},
 	{name: "variadic-forward", call: "pkgSum", sig: "(c *rt.Ctx, xs []int) int", args: "c, xs...", invoke: "c, []int{1, 2}"},
 	{name: "variadic-forward-any", prelude: "var keep any", call: "pkgSum", sig: "(c *rt.Ctx, xs []int) int", args: "c, xs...", invoke: "c, []int{1, 2}", mutate: "keep = h\n\tif _, ok := keep.(func(*rt.Ctx, []int) int); !ok { c.E(77) }"},
+	{name: "plaintype-narrowing", prelude: "var keep any", call: "pkgArea", sig: "(c *rt.Ctx, s Sq) int", args: "c, s", invoke: "c, Sq{3}", mutate: "keep = h\n\tif _, ok := keep.(func(*rt.Ctx, Sq) int); !ok { c.E(77) }"},
+	{name: "plaintype-same", call: "pkgSide", sig: "(c *rt.Ctx, s Sq) int", args: "c, s", invoke: "c, Sq{3}"},
 	{name: "widening", prelude: "f := func(a int) int { c.X(1, a); return a + 1 }", call: "f", sig: "(a int) any", args: "a", invoke: "10"},
 	{name: "recvar", prelude: "var fact func(int) int\n\tfact = func(n int) int { c.X(1, n); if n <= 1 { return 1 }; return n * fact(n-1) }", call: "fact", mutate: "old := fact\n\tfact = func(n int) int { c.X(2, n); return old(n) + 1000 }", sig: "(n int) int", args: "n", invoke: "3"},
 }
@@ -281,7 +298,7 @@ func (p etaProg) text(id string) (string, bool) {
 
 func etaFamily(tier string) *FamilySpec {
 	fs := &FamilySpec{Name: "ETA", ShardSize: 100}
-	fs.Template = pipeline.Spec{DeriveRef: true, SHeaderDecl: "var _ Iter[int]\n\n", SFiles: map[string]string{"extra.go": etaExtra}, PerFile: 1}
+	fs.Template = pipeline.Spec{DeriveRef: true, SHeaderDecl: "var _ Iter[int]\n\n", SFiles: map[string]string{"extra.go": etaExtra, "plain_types.go": etaPlain}, PerFile: 1}
 	for i := range etaCallees {
 		for _, sh := range etaParamShapes {
 			for _, pl := range etaPlaces {
